@@ -219,28 +219,41 @@ ALLOWED_AXIOMS = set()   # none: every property theorem must be closed under the
 
 
 def check_props(prop):
-    """compile coq/props/<prop>.v on its own, capturing Print Assumptions output.
+    """compile coq/props/<prop>*.v each on its own, capturing Print Assumptions output.
     -> dict(ok, obligations, discharged, axioms, theorems, log)"""
-    path = os.path.join(COQ, 'props', prop + '.v')
-    if not os.path.exists(path):
-        return {'ok': False, 'obligations': 0, 'discharged': 0, 'axioms': [], 'theorems': [], 'log': 'missing ' + path}
-    with Lock('coq'):
-        rc, out = sh(['timeout', '900', 'coqc', '-noglob'] + COQ_INCLUDES + [path], cwd=COQ, timeout=960)
-    src = re.sub(r'\(\*.*?\*\)', '', open(path).read(), flags=re.S)
-    thms = re.findall(r'^\s*(?:Theorem|Example|Corollary|Lemma)\s+([A-Za-z0-9_\']+)', src, flags=re.M)
-    printed = re.findall(r'^\s*Print Assumptions\s+([A-Za-z0-9_\']+)', src, flags=re.M)
-    closed = out.count('Closed under the global context')
-    axioms = []
-    for m in re.finditer(r'Axioms:\n((?:.+\n?)+?)(?=\n\S|\Z)', out):
-        for line in m.group(1).split('\n'):
-            mm = re.match(r'^([A-Za-z0-9_.\']+)\s*:', line)
-            if mm:
-                axioms.append(mm.group(1))
-    bad_ax = [a for a in axioms if a not in ALLOWED_AXIOMS]
-    ok = (rc == 0) and not bad_ax and set(thms) <= set(printed) and closed + (1 if axioms else 0) >= 1
-    discharged = len(thms) if rc == 0 and not bad_ax else 0
-    return {'ok': ok, 'obligations': len(thms), 'discharged': discharged, 'axioms': axioms, 'theorems': thms,
-            'closed': closed, 'log': out[-3000:], 'rc': rc, 'unprinted': sorted(set(thms) - set(printed))}
+    paths = sorted(glob.glob(os.path.join(COQ, 'props', prop + '.v')) + glob.glob(os.path.join(COQ, 'props', prop + '_*.v')))
+    if not paths:
+        return {'ok': False, 'obligations': 0, 'discharged': 0, 'axioms': [], 'theorems': [], 'closed': 0,
+                'log': 'missing coq/props/%s.v' % prop, 'rc': 1, 'unprinted': []}
+    tot = {'ok': True, 'obligations': 0, 'discharged': 0, 'axioms': [], 'theorems': [], 'closed': 0, 'log': '', 'rc': 0,
+           'unprinted': [], 'files': [os.path.relpath(p, COQ) for p in paths]}
+    for path in paths:
+        with Lock('coq'):
+            rc, out = sh(['timeout', '900', 'coqc', '-noglob'] + COQ_INCLUDES + [path], cwd=COQ, timeout=960)
+        src = re.sub(r'\(\*.*?\*\)', '', open(path).read(), flags=re.S)
+        thms = re.findall(r'^\s*(?:Theorem|Example|Corollary|Lemma)\s+([A-Za-z0-9_\']+)', src, flags=re.M)
+        printed = re.findall(r'^\s*Print Assumptions\s+([A-Za-z0-9_\']+)', src, flags=re.M)
+        closed = out.count('Closed under the global context')
+        axioms = []
+        for m in re.finditer(r'Axioms:\n((?:.+\n?)+?)(?=\n\S|\Z)', out):
+            for line in m.group(1).split('\n'):
+                mm = re.match(r'^([A-Za-z0-9_.\']+)\s*:', line)
+                if mm:
+                    axioms.append(mm.group(1))
+        bad_ax = [a for a in axioms if a not in ALLOWED_AXIOMS]
+        unprinted = sorted(set(thms) - set(printed))
+        ok = (rc == 0) and not bad_ax and not unprinted and closed >= len(set(printed)) - (1 if axioms else 0) and len(thms) > 0
+        tot['ok'] = tot['ok'] and ok
+        tot['obligations'] += len(thms)
+        tot['discharged'] += len(thms) if ok else 0
+        tot['axioms'] += axioms
+        tot['theorems'] += thms
+        tot['closed'] += closed
+        tot['unprinted'] += unprinted
+        tot['rc'] = tot['rc'] or rc
+        if not ok:
+            tot['log'] += out[-2500:]
+    return tot
 
 
 # ----------------------------------------------------------------------------- coq values
